@@ -12,7 +12,7 @@ import re
 from harness.core import cbool, clist, cnat, cstr, err_name
 
 PID = "C18"
-TRANSLATE = ["EqNames.v", "EqAggNames.v"]     # translator tie: coq/gen_proofs/EqNames.v is re-proved against definitions regenerated from /repo
+TRANSLATE = ["EqNames.v", "EqAggNames.v", "EqSanitize.v"]     # translator tie: coq/gen_proofs/EqNames.v is re-proved against definitions regenerated from /repo
 FAILING = "(C18.failing RES ROUTED)"
 SHARD = 250
 RULE = ("random expression trees of depth <= 5 over the operations (binop, compare, copy/slice/mask/index/sort/"
